@@ -47,8 +47,7 @@ func (c *Connack) Pack(w io.Writer) error {
 
 // Unpack read the packet bytes from io.Reader and decodes it into the packet struct
 func (c *Connack) Unpack(r io.Reader) error {
-	restBuffer := make([]byte, c.FixHeader.RemainLength)
-	_, err := io.ReadFull(r, restBuffer)
+	restBuffer, err := readRemaining(r, c.FixHeader.RemainLength)
 	if err != nil {
 		return codes.ErrMalformed
 	}
